@@ -349,37 +349,10 @@ def standin_unit(tier: str, seed: int, k: int, n: int):
     return harness
 
 
-def contract_unit(I: Interp) -> None:
-    """What *is* in reach as contracts on the real text (syntactic, per statement)."""
-    import ast
-    import inspect
-    import textwrap
-    sessions_mod, _, _ = _mods()
-    src = textwrap.dedent(inspect.getsource(sessions_mod.SessionsScanner.main))
-    tree = ast.parse(src)
-    whiles = [n for n in ast.walk(tree) if isinstance(n, ast.While)]
-    I.prove("K-single-outer-while-loop", z3.BoolVal(len(whiles) == 1))
-    w = whiles[0]
-    test = ast.unparse(w.test)
-    I.prove("K-variant(depth-current_depth):loop-guard-bounds-current_depth-by-config.depth",
-            z3.BoolVal("current_depth < self.config.depth" in test), test)
-    first = ast.unparse(w.body[0])
-    I.prove("K-variant(depth-current_depth):strictly-increases-first", z3.BoolVal(
-        first == "current_depth += 1"), first)
-    other = [n for n in ast.walk(w) if isinstance(n, (ast.Assign, ast.AugAssign)) and
-             "current_depth" in ast.unparse(n.targets[0] if isinstance(n, ast.Assign)
-                                            else n.target) and
-             ast.unparse(n).startswith("current_depth")]
-    I.prove("K-variant(depth-current_depth):no-other-assignment", z3.BoolVal(len(other) == 1))
-    # the skip test precedes every request of the probe loop
-    probe = [n for n in ast.walk(w) if isinstance(n, ast.For) and ast.unparse(n.iter) == "sessions"]
-    ok = bool(probe) and ast.unparse(probe[0].body[0]).startswith("if session in self.config.skip")
-    I.prove("K-skip-test-is-the-first-statement-of-the-probe-loop", z3.BoolVal(ok))
-
-
 def build_units(tier: str, seed: int = 0) -> list[Unit]:
     n = 16 if tier == "quick" else 64
-    us = [Unit("contracts/main-loop-shape", contract_unit)]
+    from . import c09_proof
+    us = c09_proof.proof_units()
     bound = ("all relations on 3 sessions x depth 1..4 x skip x thorough (quick) / on 4 sessions "
              "x depth 1..5 (thorough, sub-sampled for skip>1, thorough>3, reset, NRC policies) "
              "+ seeded graphs on <= 8 sessions")
@@ -391,7 +364,17 @@ def build_units(tier: str, seed: int = 0) -> list[Unit]:
 def native_replay(unit: str, obligation: str, model: dict) -> tuple[bool, str]:
     logging.disable(logging.CRITICAL)
     tier = os.environ.get("VERIF_TIER", "quick")
-    for c in cases("quick", int(os.environ.get("VERIF_SEED", "0"))):
+    # boundary sessions first (the first and the last sub-function value, a long chain), then
+    # the quick family of the stand-in
+    edge: list[tuple] = []
+    for hi in (0x7F, 0x7E, 0x02):
+        for depth in (1, 2):
+            edge.append(({(1, 1), (hi, 1), (1, hi)}, depth, set(), False, "sfns", False, False))
+            edge.append(({(1, 1), (2, 1), (hi, 1), (1, 2), (2, hi)}, depth, set(), True, "sfns",
+                         False, False))
+    edge.append(({(1, 1), (2, 1), (3, 1), (1, 2), (2, 3), (3, 2)}, 3, {3}, False, "cnc", True,
+                 True))
+    for c in edge + cases("quick", int(os.environ.get("VERIF_SEED", "0"))):
         try:
             run_scan(*c)
         except icontract.ViolationError:
